@@ -36,6 +36,22 @@ def run(ctx: Ctx) -> None:
             can = [h for h in t.handlers if cancel in handler_classes(h)]
             ok = len(can) == 1 and len(can[0].body) == 1 and isinstance(can[0].body[0], ast.Raise) and can[0].body[0].exc is None and t.handlers.index(can[0]) == 0
             ctx.check("C05.R1", w, "cancellation re-raised first", ok, "cancellation must not be swallowed or logged as an application error", can[0] if can else t)
+        if ok:
+            got = [sorted(handler_classes(h)) for h in t.handlers]
+            want = [[cancel], ["Exception"]] if mod.startswith("asyncio") else [[cancel], ["BaseExceptionGroup"], ["Exception"]]
+            ctx.check("C05.R1", w, "handlers are exactly: cancellation (re-raise)" + (", exception group" if mod.startswith("trio") else "") + ", Exception (log)", got == want, f"handlers catch {got}: an extra arm swallows some application failures without logging them (or a missing one lets them escape)", t)
+        if mod.startswith("trio") and ok:
+            grp = [h for h in t.handlers if "BaseExceptionGroup" in handler_classes(h)]
+            okg = len(grp) == 1
+            if okg:
+                sp = [n for n in ast.walk(grp[0]) if isinstance(n, ast.Assign) and isinstance(n.value, ast.Call) and isinstance(n.value.func, ast.Attribute) and n.value.func.attr == "split"]
+                okg = len(sp) == 1 and isinstance(sp[0].targets[0], ast.Tuple) and len(sp[0].targets[0].elts) == 2 and "Cancelled" in norm(sp[0].value)
+                if okg:
+                    rest = norm(sp[0].targets[0].elts[1])
+                    logs = [c for c in ast.walk(grp[0]) if isinstance(c, ast.Call) and call_name(c) == "config.log.exception"]
+                    rr = [n for n in ast.walk(grp[0]) if isinstance(n, ast.Raise) and n.exc is None]
+                    okg = rest != "_" and len(logs) == 1 and (f"{rest} is not None", True) in guard_atoms(logs[0], stop=grp[0]) and len(rr) == 1 and (f"{rest} is not None", False) in guard_atoms(rr[0], stop=grp[0])
+            ctx.check("C05.R1", w, "exception group: the non-cancellation REST of split(Cancelled) is logged, a pure cancellation group is re-raised", okg, "split() returns (matching, rest): using the wrong half logs cancellations and lets real application errors escape into the connection's nursery", grp[0] if grp else t)
         sa = repo.func(mod, "TaskGroup.spawn_app")
         ws = f"{mod}:TaskGroup.spawn_app"
         sp = [c for c in calls(sa) if any(norm(a) == "_handle" for a in c.args)]
